@@ -321,6 +321,96 @@ Section Generic.
 End Generic.
 
 (* ---------------------------------------------------------------------------------------------------------------- *)
+(* the counters are ghost: what an evaluation returns and the tree it leaves (counters erased) depend neither on the counters in the
+   tree nor on the instrumentation parameters `mcalls`, `clossy` *)
+Section CountersIrrelevant.
+  Variables (S In Out Lay : Type).
+  Variable mode : In -> RunMode.
+  Variable is_none : S -> bool.
+  Variable hidden_out : Out.
+  Variable zero_lay : Lay.
+  Variable algo : S -> list S -> In -> Alg In Out Lay.
+  Variable C : Type.
+  Variable cget : C -> In -> option Out.
+  Variable cstore : C -> In -> Out -> C.
+  Variable cclear : C -> C.
+  Variables (mcalls1 mcalls2 : S -> list S -> In -> N) (clossy1 clossy2 : C -> In -> bool).
+
+  Notation gtree := (gtree S Lay C).
+  Notation GNode := (GNode S Lay C).
+  Notation greset := (greset S Lay C).
+  Notation ghide := (ghide S Lay zero_lay C cclear).
+  Notation gm1 := (gmemo S In Out Lay mode is_none hidden_out zero_lay algo mcalls1 C cget clossy1 cstore cclear).
+  Notation gm2 := (gmemo S In Out Lay mode is_none hidden_out zero_lay algo mcalls2 C cget clossy2 cstore cclear).
+
+  Definition rp (p : Out * gtree) : Out * gtree := (fst p, greset (snd p)).
+  Definition rps (p : Out * list gtree) : Out * list gtree := (fst p, map greset (snd p)).
+
+  Lemma greset_hide t : greset (ghide t) = ghide (greset t).
+  Proof.
+    induction t as [s c l n kids IH] using (gtree_ind' S Lay C). cbn. f_equal. rewrite !map_map. apply map_ext_Forall. exact IH.
+  Qed.
+
+  Lemma greset_set_lay t l : greset (gset_lay S Lay C t l) = gset_lay S Lay C (greset t) l.
+  Proof. destruct t. reflexivity. Qed.
+
+  Lemma gstyle_reset t : gstyle S Lay C (greset t) = gstyle S Lay C t.
+  Proof. destruct t. reflexivity. Qed.
+
+  Lemma map_gstyle_reset kids1 kids2 : map greset kids1 = map greset kids2 -> map (gstyle S Lay C) kids1 = map (gstyle S Lay C) kids2.
+  Proof.
+    intros E. assert (E' : map (gstyle S Lay C) (map greset kids1) = map (gstyle S Lay C) (map greset kids2)) by (rewrite E; reflexivity).
+    rewrite !map_map in E'.
+    transitivity (map (fun x => gstyle S Lay C (greset x)) kids1); [apply map_ext; intros; symmetry; apply gstyle_reset|].
+    rewrite E'. apply map_ext. intros. apply gstyle_reset.
+  Qed.
+
+  Lemma nth_reset kids1 kids2 c : map greset kids1 = map greset kids2 ->
+    option_map greset (nth_error kids1 c) = option_map greset (nth_error kids2 c).
+  Proof. intros E. rewrite <- !nth_error_map. rewrite E. reflexivity. Qed.
+
+  Lemma grun_memo_reset (ev1 ev2 : gtree -> In -> option (Out * gtree)) :
+    (forall t1 t2 i, greset t1 = greset t2 -> option_map rp (ev1 t1 i) = option_map rp (ev2 t2 i)) ->
+    forall a kids1 kids2, map greset kids1 = map greset kids2 ->
+      option_map rps (grun_memo S In Out Lay C ev1 kids1 a) = option_map rps (grun_memo S In Out Lay C ev2 kids2 a).
+  Proof.
+    intros Hev a. induction a as [o0|c i k IH|c l k IH]; intros kids1 kids2 E; cbn.
+    - unfold rps. cbn. rewrite E. reflexivity.
+    - pose proof (nth_reset _ _ c E) as En.
+      destruct (nth_error kids1 c) as [t1|], (nth_error kids2 c) as [t2|]; cbn in En; try discriminate; [|reflexivity].
+      injection En as En. specialize (Hev _ _ i En).
+      destruct (ev1 t1 i) as [[o1 t1']|], (ev2 t2 i) as [[o2 t2']|]; cbn in Hev; try discriminate; [|reflexivity].
+      unfold rp in Hev. cbn in Hev. injection Hev as -> Et. apply IH.
+      rewrite !map_replace_nth. rewrite E, Et. reflexivity.
+    - pose proof (nth_reset _ _ c E) as En.
+      destruct (nth_error kids1 c) as [t1|], (nth_error kids2 c) as [t2|]; cbn in En; try discriminate; [|reflexivity].
+      injection En as En. apply IH. rewrite !map_replace_nth, !greset_set_lay. rewrite E, En. reflexivity.
+  Qed.
+
+  Theorem gmemo_counters_irrelevant : forall f t1 t2 i, greset t1 = greset t2 -> option_map rp (gm1 f t1 i) = option_map rp (gm2 f t2 i).
+  Proof.
+    induction f as [|f IH]; intros t1 t2 i E; [reflexivity|].
+    destruct t1 as [s c l n1 kids1], t2 as [s2 c2 l2 n2 kids2]. cbn in E. injection E as <- <- <- Ek.
+    rewrite !gmemo_unfold.
+    assert (Hh : rp (hidden_out, ghide (GNode s c l n1 kids1)) = rp (hidden_out, ghide (GNode s c l n2 kids2))).
+    { unfold rp. cbn [fst snd]. f_equal. rewrite !greset_hide. cbn [EngineReal.greset]. rewrite Ek. reflexivity. }
+    assert (Hb : option_map rp (gbody S In Out Lay mode is_none hidden_out zero_lay algo mcalls1 C cget clossy1 cstore cclear f s c l n1 kids1 i)
+                 = option_map rp (gbody S In Out Lay mode is_none hidden_out zero_lay algo mcalls2 C cget clossy2 cstore cclear f s c l n2 kids2 i)).
+    { unfold gbody. destruct (cget c i) as [o1|].
+      - cbn. unfold rp. cbn. rewrite Ek. reflexivity.
+      - destruct (is_none s).
+        + cbn. unfold rp. cbn. do 3 f_equal. rewrite !map_map.
+          erewrite map_ext; [|intros; apply greset_hide]. symmetry. erewrite map_ext; [|intros; apply greset_hide].
+          rewrite <- (map_map greset ghide kids1), <- (map_map greset ghide kids2), Ek. reflexivity.
+        + rewrite (map_gstyle_reset _ _ Ek).
+          pose proof (grun_memo_reset _ _ IH (algo s (map (gstyle S Lay C) kids2) i) _ _ Ek) as Hr.
+          destruct (grun_memo _ _ _ _ _ _ kids1 _) as [[o1 k1]|], (grun_memo _ _ _ _ _ _ kids2 _) as [[o2 k2]|]; cbn in Hr; try discriminate; [|reflexivity].
+          unfold rps in Hr. cbn in Hr. injection Hr as -> Ek'. cbn. unfold rp. cbn. rewrite Ek'. reflexivity. }
+    destruct (mode i); try exact Hb. cbn [option_map]. rewrite Hh. reflexivity.
+  Qed.
+End CountersIrrelevant.
+
+(* ---------------------------------------------------------------------------------------------------------------- *)
 (* the Exact instance is Model/Engine.v's memo *)
 Section ExactIsMemo.
   Variables (S In Out Lay : Type).
